@@ -185,6 +185,10 @@ class Frag:
                     return a ** e.right.value
                 raise Uninterpretable("non-integer power %s" % ast.unparse(e))
             la, lb = self.ev(e.left), self.ev(e.right)
+            if isinstance(la, (Tup, Opaque)) and isinstance(lb, (Tup, Opaque)) and isinstance(e.op, ast.Add) and (isinstance(la, Tup) or isinstance(lb, Tup)):
+                return Opaque("shape tuple", e)                 # tuple concatenation: a shape, never a number
+            if isinstance(e.op, ast.Mult) and ((isinstance(la, Tup) and not isinstance(lb, (Tup, SeqVal))) or (isinstance(lb, Tup) and not isinstance(la, (Tup, SeqVal)))):
+                return Opaque("shape tuple", e)                 # tuple repetition
             if isinstance(la, SeqVal) or isinstance(lb, SeqVal):
                 opf = {ast.Add: lambda x, y: x + y, ast.Sub: lambda x, y: x - y, ast.Mult: lambda x, y: x * y, ast.Div: lambda x, y: x / y}.get(type(e.op))
                 if opf is None:
